@@ -99,6 +99,14 @@ fn main() {
                 2
             }
         },
+        "withline-child" => stress::withline_child(),
+        "withline" => match stress::withline(&kv["out"]) {
+            Ok(c) => c,
+            Err(e) => {
+                eprintln!("harness error: {e}");
+                2
+            }
+        },
         "stress" => {
             let opts = stress::Opts {
                 cancelable: kv.contains_key("cancelable"),
